@@ -314,6 +314,30 @@ func (b *Bounds) LenAtLeast(x ssa.Value, at ssa.Instruction, t Term) bool {
 			}
 		}
 	}
+	// t is off + count where count was returned by a callee with a verified summary "count ≤ len(arg)" and arg is x[off:]:
+	// off + count ≤ off + len(x[off:]) = len(x) (the slice expression x[off:] was evaluated, so off ≤ len(x))
+	if t.V != nil && t.K <= 0 {
+		if add, ok := stripWiden(t.V).(*ssa.BinOp); ok && add.Op == token.ADD {
+			for _, pr := range [][2]ssa.Value{{add.X, add.Y}, {add.Y, add.X}} {
+				off, cnt := pr[0], pr[1]
+				ex, isEx := stripWiden(cnt).(*ssa.Extract)
+				if !isEx {
+					continue
+				}
+				c, isC := ex.Tuple.(*ssa.Call)
+				if !isC {
+					continue
+				}
+				sm, has := b.Summaries[CalleeName(c)]
+				if !has || sm.Ret != ex.Index || !b.onNilErrEdge(c, at) {
+					continue
+				}
+				if sl, isSl := ArgRaw(c, sm.Param).(*ssa.Slice); isSl && sl.High == nil && sl.Low != nil && sameSlice(sl.X, x) && sameInt(sl.Low, off) {
+					return true
+				}
+			}
+		}
+	}
 	// t is a count returned by a callee with a verified summary "count ≤ len(arg)" and arg is x or a sub-slice of x
 	if t.V != nil && t.K <= 0 {
 		if ex, ok := stripWiden(t.V).(*ssa.Extract); ok {
